@@ -186,7 +186,7 @@ class Ctx:
         return d
 
     def tlc(self, module, cfg, workers=None, heap="2g", timeout=900, simulate=None, depth=None,
-            extra=None, cwd_files=None, dump_json=False, dump_path=None, label=None, deadlock=None, coverage=False):
+            extra=None, cwd_files=None, env_extra=None, dump_json=False, dump_path=None, label=None, deadlock=None, coverage=False):
         """Run TLC.  Returns dict(ok, generated, distinct, violated, out, lines(json objects printed))."""
         d = self.spec_copy()
         if cwd_files:
@@ -196,8 +196,11 @@ class Ctx:
         n = len(self.tlc_runs)
         meta = os.path.join(self.scratch, "meta-%d" % n)
         w = str(workers or min(NCPU, 8))
-        cmd = ["java", "-Xmx" + heap, "-Xss64m", "-XX:+UseParallelGC", "-XX:ParallelGCThreads=4", "-cp", TLA_CP,
-               "tlc2.TLC", "-noGenerateSpecTE", "-metadir", meta, "-workers", w, "-config", cfg]
+        jtmp = os.path.join(self.scratch, "jtmp")
+        os.makedirs(jtmp, exist_ok=True)
+        cmd = ["java", "-Xmx" + heap, "-Xss64m", "-XX:+UseParallelGC", "-XX:ParallelGCThreads=4",
+               "-Djava.io.tmpdir=" + jtmp, "-cp", TLA_CP,
+               "tlc2.TLC", "-noGenerateSpecTE", "-maxSetSize", "8000000", "-metadir", meta, "-workers", w, "-config", cfg]
         if simulate:
             cmd += ["-simulate", simulate]
         if depth:
@@ -213,7 +216,10 @@ class Ctx:
         outp = os.path.join(self.scratch, "tlc-%d.out" % n)
         with open(outp, "w") as fo:
             try:
-                p = subprocess.run(cmd, cwd=d, stdout=fo, stderr=subprocess.STDOUT, timeout=timeout)
+                env = dict(os.environ)
+                if env_extra:
+                    env.update(env_extra)
+                p = subprocess.run(cmd, cwd=d, stdout=fo, stderr=subprocess.STDOUT, timeout=timeout, env=env)
                 rc = p.returncode
             except subprocess.TimeoutExpired:
                 subprocess.run(["pkill", "-f", meta], capture_output=True)
@@ -273,6 +279,8 @@ class Ctx:
         res["errors"] = errors
         res["rc"] = rc
         res["outfile"] = outp
+        if os.path.getsize(outp) > 50 << 20:
+            os.remove(outp)
         return res
 
     def tlc_must_pass(self, *a, **kw):
@@ -395,3 +403,111 @@ def read_ndjson(path):
             if line:
                 out.append(json.loads(line))
     return out
+
+
+def validate_traces(ctx, module, cfg, trace_path, shape, site="", max_rejections=5, timeout=900, heap="2g"):
+    """Trace validation (code -> specification).  trace_path: ndjson, traces concatenated, each starts
+    with an {"ev":"Init",...} line.  TLC must consume every line (POSTCONDITION Rejected prints the first
+    unexplained line).  A rejected trace is reported as a violation (it is an execution of the real code
+    that the specification does not allow), removed, and validation continues with the rest.
+    Returns (traces validated, events)."""
+    lines = open(trace_path).read().splitlines()
+    lines = [l for l in lines if l.strip()]
+    if not lines:
+        raise Infra("no trace recorded for " + module)
+    total_traces = sum(1 for l in lines if l.startswith('{"ev":"Init"'))
+    rejected = 0
+    rnd = 0
+    while True:
+        rnd += 1
+        cur = os.path.join(ctx.scratch, "trace-%s-%d.ndjson" % (module.replace(".tla", ""), rnd))
+        with open(cur, "w") as f:
+            f.write("\n".join(lines) + "\n")
+        r = ctx.tlc(module, cfg, workers=1, timeout=timeout, heap=heap, env_extra={"VERIF_TRACE": cur},
+                    label="trace validation %s round %d (%d lines)" % (module, rnd, len(lines)))
+        if r["ok"]:
+            break
+        m = re.search(r'"REJECTED-AT-LINE", (\d+)', r["out"])
+        if r["violated"] and not m:
+            # an invariant of the specification is false in a state of a recorded execution
+            m2 = re.search(r"l = (\d+)", r["out"][r["out"].rfind("Error: Invariant"):] if "Error: Invariant" in r["out"] else "")
+            # find the l of the last printed state
+            ls = re.findall(r"/\\ l = (\d+)", r["out"])
+            if not ls:
+                raise Infra("trace validation of %s failed without a position:\n%s" % (module, r["out"][-3000:]))
+            at = int(ls[-1]) - 1
+            why = "invariant %s of the specification is false in a state of a recorded execution" % ",".join(r["violated"])
+        elif m:
+            at = int(m.group(1))
+            why = "no action of the specification explains the recorded event"
+        else:
+            raise Infra("trace validation of %s failed:\n%s" % (module, r["out"][-3000:]))
+        if at < 1 or at > len(lines):
+            raise Infra("trace validation of %s: position %d out of range" % (module, at))
+        # the trace containing line `at` (1-based)
+        start = at - 1
+        while start > 0 and not lines[start].startswith('{"ev":"Init"'):
+            start -= 1
+        end = at
+        while end < len(lines) and not lines[end].startswith('{"ev":"Init"'):
+            end += 1
+        tr = [json.loads(x) for x in lines[start:end]]
+        ctx.violation(shape, "%s: event %d of the trace: %s" % (why, at - start, lines[at - 1][:300]),
+                      dict(trace=tr, rejected_event_index=at - start, module=module), site)
+        rejected += 1
+        del lines[start:end]
+        if rejected >= max_rejections or not lines:
+            break
+    ctx.add("traces_validated_against_impl", total_traces)
+    ctx.add("trace_events", len(lines))
+    return total_traces, len(lines)
+
+
+def trace_accepts(ctx, module, cfg, lines, tag, timeout=300):
+    """True iff TLC accepts the given trace lines (no violation is recorded)."""
+    cur = os.path.join(ctx.scratch, "selftest-%s-%s.ndjson" % (module.replace(".tla", ""), tag))
+    with open(cur, "w") as f:
+        f.write("\n".join(lines) + "\n")
+    r = ctx.tlc(module, cfg, workers=1, timeout=timeout, env_extra={"VERIF_TRACE": cur}, label="binding self-test " + tag)
+    ctx.tlc_runs.pop()  # self-tests are not coverage
+    if r["ok"]:
+        return True
+    if r["violated"] or "REJECTED-AT-LINE" in r["out"]:
+        return False
+    raise Infra("self-test of %s failed to run:\n%s" % (module, r["out"][-2000:]))
+
+
+def binding_selftest(ctx, module, cfg, trace_path, corruptions):
+    """DESIGN 3.6: corrupt one field of one recorded event; the corrupted trace must be rejected.
+    corruptions: list of (tag, fn(list of event dicts) -> list of event dicts or None)."""
+    lines = [l for l in open(trace_path).read().splitlines() if l.strip()]
+    # first few traces
+    traces = []
+    cur = []
+    for l in lines:
+        if l.startswith('{"ev":"Init"') and cur:
+            traces.append(cur)
+            cur = []
+        cur.append(json.loads(l))
+        if len(traces) >= 60:
+            break
+    if cur and len(traces) < 60:
+        traces.append(cur)
+    done = []
+    for tag, fn in corruptions:
+        ok = False
+        for tr in traces:
+            c = fn(json.loads(json.dumps(tr)))
+            if c is None:
+                continue
+            base = [json.dumps(e, separators=(",", ":")) for e in tr]
+            if not trace_accepts(ctx, module, cfg, base, tag + "-base"):
+                continue  # (a trace that is itself rejected is reported by validate_traces)
+            if trace_accepts(ctx, module, cfg, [json.dumps(e, separators=(",", ":")) for e in c], tag):
+                raise Infra("binding self-test: corrupted trace (%s) was ACCEPTED by %s - the trace specification does not bind" % (tag, module))
+            ok = True
+            break
+        if not ok:
+            raise Infra("binding self-test %s: no recorded trace could be corrupted" % tag)
+        done.append(tag)
+    ctx.cov["binding_selftests_rejected"] = ctx.cov.get("binding_selftests_rejected", []) + done
